@@ -127,6 +127,21 @@ def impl_repair(sm, vers, force, writekey):
     return "republish:%d:%d" % (vers.index(version), seq)
 
 
+def impl_getver(sm, vers, want):
+    """the real MutableFileNode._get_version_from_servermap on a map made in the requested mode (so no new survey)"""
+    from twisted.python.failure import Failure
+    from allmydata.mutable.filenode import MutableFileNode
+    from allmydata.mutable.common import MODE_READ
+    node = MutableFileNode.__new__(MutableFileNode)
+    sm.set_last_update(MODE_READ, 0)
+    box = []
+    node._get_version_from_servermap(MODE_READ, sm, want).addBoth(box.append)
+    r = box[0]
+    if isinstance(r, Failure):
+        return type(r.value).__name__
+    return str(vers.index(r[1]))
+
+
 def ref_health(known):
     """the statement: a single recoverable version with N distinct shares and no other versions"""
     by = mc.ref_distinct(known)
@@ -203,6 +218,35 @@ def run_function_level(ctx, cases):
                                       "repair-seqnum-not-above-map-function")
                 ctx.case(("repair", rlines[-1]) if nv >= 2 else None)
                 ctx.count("repair-decision:" + o.split(":")[0] + (":" + o.split(":")[1] if o.startswith("Must") else ""))
+    # _get_version_from_servermap: every version of the table (located or not) and "no particular version"
+    glines, gimpl, gcases = [], [], []
+    for (vers, ops) in cases:
+        sm = c11.build_smap(vers, ops, servers)
+        toks = "%s %s" % (mc.vtable(vers), " ".join(c11.op_tokens(ops)))
+        known = c11.ref_known(vers, ops)
+        rec = mc.ref_recoverable(known)
+        for want in [None] + list(range(len(vers)))[:3]:
+            gc = {"kind": "getver", "vers": [mc.enc_ver(v) for v in vers], "ops": [list(o) for o in ops], "want": want}
+            try:
+                o = impl_getver(sm, vers, None if want is None else vers[want])
+            except Exception as e:
+                o = "harness-exception:" + type(e).__name__
+            glines.append("getver %s %s" % ("N" if want is None else want, toks))
+            gimpl.append(o)
+            gcases.append(gc)
+            ctx.case(("getver", glines[-1]) if len(set(known.values())) >= 2 else None)
+            ctx.count("getver-%s:%s" % ("best" if want is None else ("recoverable" if vers[want] in rec else "unrecoverable"),
+                                        "error" if o.endswith("Error") else "version"))
+            if want is not None and o.isdigit() and int(o) != want:
+                ctx.violation("a request for one version was answered with another version", gc,
+                              "get-version-returned-other-version-function")
+            if want is not None and vers[want] not in rec and o.isdigit():
+                ctx.violation("a version the servermap cannot recover was handed out", gc,
+                              "get-version-unrecoverable-function")
+    gm = ctx.model(glines)
+    if gm is not None:
+        ctx.compare("MutableFileNode._get_version_from_servermap (requested version / best / UnrecoverableFileError)",
+                    gcases, gimpl, gm)
     model = ctx.model(clines + rlines)
     if model is not None:
         ctx.compare("MutableChecker._got_mapupdate_results/_make_checker_results/_count_shares (healthy, recoverable, "
@@ -686,7 +730,7 @@ def run(ctx):
     cases, scs = [], []
     if ctx.replay:
         c = ctx.replay["case"]
-        if c.get("kind") in ("check", "repair"):
+        if c.get("kind") in ("check", "repair", "getver"):
             cases = [(c11.parse_replay_vers(c["vers"]), [tuple(o) for o in c["ops"]])]
         elif c["sc"].get("family") == "offline":
             run_offline_scenario(ctx, c["sc"])
